@@ -649,8 +649,12 @@ pub fn run(ctx: &mut Ctx) -> (&'static str, String, bool) {
     }
 
     for s in ["Árvíztűrő", "ěšΩж美한中"] {
-        let b = to_lossy_bytes(s).to_vec();
-        ctx.sample(json!({"input": s, "wire_hex": hex(&b), "reference_decoding": ref_decode(tb, &b).0, "decoded": to_lossy_string(&b)}));
+        if let Ok(v) = guarded(|| {
+            let b = to_lossy_bytes(s).to_vec();
+            json!({"input": s, "wire_hex": hex(&b), "reference_decoding": ref_decode(tb, &b).0, "decoded": to_lossy_string(&b)})
+        }) {
+            ctx.sample(v);
+        }
     }
     ctx.assume("authority: Microsoft codepage tables as shipped in CPython's codecs, restricted to the agreement core with the WHATWG encoding of the same name (sizes in coverage.tables)");
     ctx.assume("encode-side strings are drawn from 'safe' characters: wherever a same-named WHATWG encoder can encode them, the bytes are the Microsoft mapping of that character");
